@@ -211,7 +211,10 @@ impl Method for UpperReversalSignal {
 			Action::None
 		};
 
-		self.index = self.index.saturating_add(1);
+		// Positions are kept relative to the oldest value of the window, so the counters never reach
+		// the bound of `PeriodType` however long the stream is
+		self.max_index -= first_index;
+		self.index = self.index - first_index + 1;
 		s
 	}
 }
@@ -345,7 +348,10 @@ impl Method for LowerReversalSignal {
 			Action::None
 		};
 
-		self.index = self.index.saturating_add(1);
+		// Positions are kept relative to the oldest value of the window, so the counters never reach
+		// the bound of `PeriodType` however long the stream is
+		self.min_index -= first_index;
+		self.index = self.index - first_index + 1;
 		s
 	}
 }
